@@ -178,6 +178,8 @@ def int_to_bytes(interp, n, length=None, byteorder="big", *, signed=False):
     ctx.axiom(z3.Length(t) == ln, "I2OSP: |I2OSP(n, L)| = L")
     ctx.axiom(OS2IP(t) == n, "OS2IP(I2OSP(n, L)) = n for 0 <= n < 256^L")
     # definition of the minimal big-endian form, instantiated at this (n, L)
+    ctx.axiom(z3.Implies(z3.And(ln > 0, n >= pow256(ctx, ln - 1)), z3.StrToCode(z3.SubString(t, 0, 1)) > 0),
+              "I2OSP(n, L) has a non-zero leading octet when n >= 256^(L-1)")
     ctx.axiom(z3.Implies(z3.Or(ln == 0, n >= pow256(ctx, ln - 1)), MinBE(n) == t),
               "MinBE(n) = I2OSP(n, L) for the unique L with 256^(L-1) <= n < 256^L (L = 0 for n = 0)")
     return interp.mk("vbytes", t)
